@@ -570,8 +570,11 @@ def main():
         "wall_s": round(wall, 2),
         "violations": n_viol,
     }
-    (VERIF / "evidence").mkdir(exist_ok=True)
-    (VERIF / "evidence" / f"{pid}.json").write_text(json.dumps(ev, indent=1, default=str))
+    # evidence/ holds runs against /repo itself only; experiments on another checkout (VERIF_REPO) write elsewhere
+    evdir = VERIF / "evidence" if REPO == Path("/repo") else Path("/tmp/verif_scratch_evidence")
+    evdir.mkdir(parents=True, exist_ok=True)
+    ev["repo"] = str(REPO)
+    (evdir / f"{pid}.json").write_text(json.dumps(ev, indent=1, default=str))
     try:
         if os.environ.get("VERIF_DRIVER_EXE"):
             os.unlink(os.environ["VERIF_DRIVER_EXE"])
